@@ -104,9 +104,9 @@ func Run(c *vf.Check) {
 	jobs = append(jobs, func() { runCoSiMaskSeq(c) })
 	vf.Parallel(len(jobs), func(i int) { jobs[i]() })
 	c.Finish("engine E (+S for mask objects): BLS on the 8 supported (suite, signature group) combinations: keys {1,r1,r2} x messages {empty, 1 byte, 300 bytes}: verifies; other message/key, sigma+B, -sigma, 2*sigma, identity, one bit per byte flipped -> rejected. "+
-		"Threshold BLS: all (t,n), 2<=t<=n<=3 (4 for bn256-G1 and gnark-G2; thorough 4-5; and n in {6,8} with t in {2,n/2+1,n} on bn256-G1 - thorough: every t, every combination - on a reduced menu: every subset of size t, the full list, the subsets of size t-1 touching either end, sorted and reversed, {duplicate, bit flip, wrong index} at the front, the middle and the end): every subset of the valid partials with >= t-1 members in all orders (n<=3) or sorted/reversed, with none or one injected item from {duplicate of the first/last, bit-flipped partial, valid signature under another signer's index, partial on another message, 1-byte garbage, empty, index >= n} at every position: Recover returns exactly bls.Sign(secret,msg) and VerifyRecovered accepts iff >= t distinct valid partials are present, else an error. "+
-		"BDN: n <= 3 (4 for bn256) signers, all non-empty masks (and 9 and 10 signers - two mask bytes - on bn256-G1, thorough on every combination, with a menu of 15 masks around the byte boundary), each built through {NewMask(nil)+SetBit, NewMask(own key k)+SetBit for every k in the mask, SetMask(bytes), Merge of two halves, Clone then edited}: aggregate key bytes equal across routes; aggregate signature verifies under it, fails under every other mask's key and another message. "+
-		"CoSi (Ed25519): n <= 4, all masks x policies {Complete, Threshold k}: verifies iff policy met; every bit of V, r and every meaningful mask bit flipped -> error; all SetBit/SetMask sequences of depth <= 3 keep AggregatePublic = sum of enabled keys. "+
+		"Threshold BLS: all (t,n), 2<=t<=n<=3 (4 for bn256-G1 and gnark-G2; thorough 4-5; and n in {6,8} with t in {2,n/2+1,n} on bn256-G1 - thorough: every t, every combination - on a reduced menu: every subset of size t, the full list, the subsets of size t-1 touching either end, sorted and reversed, {duplicate, bit flip, wrong index} at the front, the middle and the end): every subset of the valid partials with >= t-1 members in all orders (n<=3) or sorted/reversed, with none or one injected item from {duplicate of the first/last, bit-flipped partial, valid signature under another signer's index, partial on another message, 1-byte garbage, empty, index >= n} at every position: Recover returns exactly bls.Sign(secret,msg) and VerifyRecovered accepts iff >= t distinct valid partials are present, else an error. Forging strategy: for every index set of size t, two partials replaced by an invalid pair whose errors cancel in the interpolation (S_a+D, S_b-(l_a/l_b)D) - alone, followed by the genuine two, behind garbage and a duplicate: refused iff fewer than t valid partials are listed. "+
+		"BDN: n <= 3 (4 for bn256) signers, all non-empty masks (and 9 and 10 signers - two mask bytes - on bn256-G1, thorough on every combination, with a menu of 15 masks around the byte boundary), each built through {NewMask(nil)+SetBit, NewMask(own key k)+SetBit for every k in the mask, SetMask(bytes), Merge of two halves, Clone then edited, after a Clone with every bit set has aggregated}; both aggregations run twice on the same mask object with identical results: aggregate key bytes equal across routes; aggregate signature verifies under it, fails under every other mask's key and another message. "+
+		"CoSi (Ed25519): n <= 4, all masks x policies {Complete, Threshold k}: verifies iff policy met, also with the unused bits of the last mask byte set (each, all); every bit of V, r and every meaningful mask bit flipped -> error; all SetBit/SetMask sequences of depth <= 3 keep AggregatePublic = sum of enabled keys. "+
 		"non-trivial = lists with an injected item or a non-sorted order, masks with >= 2 signers; distinct by (scheme, combination, t, n, list/mask/route)",
 		[]string{"signing keys and polynomials come from seeded streams", "chance acceptance of a mutated signature is ignored"}, nil)
 }
@@ -431,4 +431,97 @@ func runTBLS(c *vf.Check, k combo, t, n int, large bool) {
 		}
 	}
 	c.Count("states", int64(1)<<n)
+	// forging strategy: two invalid partials whose errors cancel in the interpolation. For an index set I and a, b in I:
+	// S_a + D and S_b - (l_a/l_b) D (l = Lagrange coefficients of I at 0) interpolate to the genuine signature although
+	// neither is a valid partial. With fewer than t *valid* partials in the list the recovery must refuse; with t valid
+	// ones besides the two it must return the genuine signature.
+	if t >= 2 && !large {
+		lag := func(I []int, i int) *big.Int {
+			num, den := big.NewInt(1), big.NewInt(1)
+			xi := big.NewInt(int64(i + 1))
+			for _, j := range I {
+				if j == i {
+					continue
+				}
+				xj := big.NewInt(int64(j + 1))
+				num.Mul(num, xj).Mod(num, q)
+				d := new(big.Int).Sub(xj, xi)
+				den.Mul(den, d.Mod(d, q)).Mod(den, q)
+			}
+			return num.Mul(num, new(big.Int).ModInverse(den, q)).Mod(num, q)
+		}
+		D := k.sig.Point().Mul(alpha.ToScalar(k.sig.Scalar(), alpha.Rand("c09-tbls-cancel", q), q), nil)
+		for mask := 1; mask < 1<<n; mask++ {
+			var sub []int
+			for i := 0; i < n; i++ {
+				if mask>>i&1 == 1 {
+					sub = append(sub, i)
+				}
+			}
+			if len(sub) != t {
+				continue
+			}
+			for _, pair := range [][2]int{{0, len(sub) - 1}, {len(sub) - 1, 0}, {0, 1}} {
+				a, b := sub[pair[0]], sub[pair[1]]
+				if a == b {
+					continue
+				}
+				for variant := 0; variant < 3; variant++ {
+					a, b, variant, sub := a, b, variant, sub
+					id := fmt.Sprintf("%s: index set %v, partials %d and %d replaced by a cancelling pair, variant %d", cfg, sub, a, b, variant)
+					c.Case(id, pk+"/Recover", func(x *vf.Ctx) {
+						ratio := new(big.Int).Mul(lag(sub, a), new(big.Int).ModInverse(lag(sub, b), q))
+						ratio.Mod(ratio, q)
+						fake := func(i int, delta kyber.Point) []byte {
+							S := k.sig.Point()
+							if err := S.UnmarshalBinary(partials[i][2:]); err != nil {
+								panic(err)
+							}
+							sb, _ := k.sig.Point().Add(S, delta).MarshalBinary()
+							return append(append([]byte{}, partials[i][:2]...), sb...)
+						}
+						fa := fake(a, D)
+						fb := fake(b, k.sig.Point().Neg(k.sig.Point().Mul(alpha.ToScalar(k.sig.Scalar(), ratio, q), D)))
+						if ts.VerifyPartial(pub, msg, fa) == nil || ts.VerifyPartial(pub, msg, fb) == nil {
+							x.Failf(pk+"/invalid-partial-accepted", "%s: VerifyPartial accepts a shifted partial", id)
+							return
+						}
+						var list [][]byte
+						for _, i := range sub {
+							switch i {
+							case a:
+								list = append(list, fa)
+							case b:
+								list = append(list, fb)
+							default:
+								list = append(list, append([]byte{}, partials[i]...))
+							}
+						}
+						valid := t - 2
+						switch variant {
+						case 1: // the two genuine partials follow the forged ones: t valid ones in all
+							list = append(list, append([]byte{}, partials[a]...), append([]byte{}, partials[b]...))
+							valid = t
+						case 2: // garbage and a duplicate in front
+							list = append([][]byte{{0x07}, append([]byte{}, list[len(list)-1]...)}, list...)
+						}
+						got, err := ts.Recover(pub, msg, list, uint32(t), uint32(n))
+						c.Eval(1)
+						if valid < t && err == nil {
+							x.Failf(pk+"/Recover-too-few", "%s: a signature is produced although only %d < t of the listed partials are valid (the two invalid ones cancel in the interpolation)", id, valid)
+						}
+						if valid >= t {
+							if err != nil {
+								x.Failf(pk+"/Recover-refused", "%s: refused although %d valid partials are present: %v", id, valid, err)
+							} else if !bytes.Equal(got, want) {
+								x.Failf(pk+"/Recover-wrong", "%s: recovered signature differs from the signature of the group secret", id)
+							}
+						}
+					})
+					c.Count("transitions", 1)
+					c.Nontrivial(id)
+				}
+			}
+		}
+	}
 }
